@@ -7,7 +7,7 @@
 (* invocation and delegates:                                               *)
 (*  ["c", name]                                   a core rule ran          *)
 (*  ["b", name, silent, res, start, end, line0, line1, nt0, nt1, lv0, lv1, *)
-(*        tableSame, ctxSame, parentTypeSame, depth]   (in order of ENTRY)  *)
+(*        tableSame, ctxSame, parentTypeSame, depth, envSame]  (ENTRY order) *)
 (*  ["i", name, silent, res, pos0, pos1, pmax0, pmax1, nt0, nt1, pd0, pd1, *)
 (*        lv0, lv1, depth]                      (in order of ENTRY)        *)
 (* Clauses:                                                                *)
@@ -16,6 +16,9 @@
 (*  failed_rule_left_tokens / failed_rule_moved   a rule that returns      *)
 (*                       False pushed nothing and did not move the cursor  *)
 (*  silent_call_left_tokens   silent (look-ahead) calls create no tokens   *)
+(*  failed_rule_changed_env   a block rule that fails or runs silently     *)
+(*                       leaves env as found (keys, number of definitions  *)
+(*                       and duplicates)                                   *)
 (*  no_progress          a successful non-silent call advanced the cursor  *)
 (*  cursor_beyond_frame  ... and stayed inside its frame                   *)
 (*  level_not_restored   a rule call leaves state.level as it found it     *)
@@ -47,6 +50,7 @@ BlockVerdict(e) ==
     ELSE IF silent /\ e[10] # e[9] THEN "silent_call_left_tokens"
     ELSE IF res /\ ~silent /\ e[8] <= e[5] THEN "no_progress"
     ELSE IF res /\ ~silent /\ e[8] > e[6] THEN "cursor_beyond_frame"
+    ELSE IF (~res \/ silent) /\ e[17] # 1 THEN "failed_rule_changed_env"
     ELSE IF e[12] # e[11] THEN "level_not_restored"
     ELSE IF e[13] # 1 THEN "line_table_not_restored"
     ELSE IF e[14] # 1 THEN "block_context_not_restored"
